@@ -584,6 +584,7 @@ func RunPlan(p Plan) *Result {
 						var rctx context.Context = ctx
 						if p.RestartInReadPct > 0 && !p.special(hi) && rnd.intn(100) < p.RestartInReadPct && atomic.AddInt32(&restartsInRead, 1) <= 4 {
 							wait := time.Duration(2+rnd.intn(8)) * time.Millisecond
+							settle := time.Duration(rnd.intn(4000)) * time.Microsecond // the new incarnation gets this long to initialize
 							rctx = &hookCtx{Context: ctx, fn: func() {
 								time.Sleep(wait)
 								hostMu.Lock()
@@ -601,6 +602,7 @@ func RunPlan(p Plan) *Result {
 										if err != nil {
 											res.flag("replica-restart-failed")
 										}
+										time.Sleep(settle)
 									}
 								}
 							}}
